@@ -108,3 +108,15 @@ pub fn run_simple<T: Send>(
         },
     )
 }
+
+/// A worker made no progress for a while: either the case it executes hangs,
+/// or the machine is so loaded that the thread was starved.  Re-runs the case
+/// in a fresh thread and waits `secs`; only if it does not finish is this a hang.
+pub fn confirm_hang(f: impl FnOnce() + Send + 'static, secs: u64) -> bool {
+    let (tx, rx) = std::sync::mpsc::channel::<()>();
+    std::thread::spawn(move || {
+        f();
+        let _ = tx.send(());
+    });
+    rx.recv_timeout(Duration::from_secs(secs)).is_err()
+}
